@@ -296,4 +296,375 @@ theorem burnTag_strs (t : List Bytes) (hu : ∀ x ∈ t, IsUtf8 x) (txt rest : B
     simp [burnTag, eatWs, isWs, verifyChar, hb, hnw]
     exact burnTagLoop_strs ss (fun x hx => hu x (by simp [hx])) r rest hr _ (by omega)
 
+/-- every string of every tag is UTF-8 -/
+def TagsUtf8 (ts : TagsRec) : Prop := ∀ t ∈ ts, ∀ s ∈ t, IsUtf8 s
+
+theorem eatWs_strs (t : List Bytes) (sj rest : Bytes) (h : strsJson t true = .ok sj) :
+    eatWs (sj ++ 93 :: rest) = sj ++ 93 :: rest := by
+  cases t with
+  | nil => simp only [strsJson, Outcome.ok.injEq] at h; subst h; simp [eatWs, isWs]
+  | cons s ss =>
+    obtain ⟨e, r, _, _, rfl⟩ := strsJson_cons_inv s ss true sj h
+    simp [eatWs, isWs]
+
+theorem eatWs_body (ts : TagsRec) (r rest : Bytes) (h : tagsJsonBody ts false = .ok r) :
+    eatWs (r ++ 93 :: rest) = r ++ 93 :: rest := by
+  cases ts with
+  | nil => simp only [tagsJsonBody, Outcome.ok.injEq] at h; subst h; simp [eatWs, isWs]
+  | cons t ts =>
+    obtain ⟨sj, r', _, _, rfl⟩ := tagsJsonBody_cons_inv t ts false r h
+    simp [eatWs, isWs]
+
+theorem countTagsLoop_body (ts : TagsRec) (hu : TagsUtf8 ts) (r rest : Bytes)
+    (hb : tagsJsonBody ts false = .ok r) (n fuel : Nat) (hf : ts.length + 1 ≤ fuel) :
+    countTagsLoop fuel (r ++ 93 :: rest) n = .ok (n + ts.length) := by
+  induction ts generalizing r n fuel with
+  | nil =>
+    obtain ⟨f, rfl⟩ : ∃ f, fuel = f + 1 := ⟨fuel - 1, by omega⟩
+    simp only [tagsJsonBody, Outcome.ok.injEq] at hb
+    subst hb
+    simp [countTagsLoop]
+  | cons t ts ih =>
+    obtain ⟨f, rfl⟩ : ∃ f, fuel = f + 1 := ⟨fuel - 1, by omega⟩
+    obtain ⟨sj, r', hsj, hr', rfl⟩ := tagsJsonBody_cons_inv t ts false r hb
+    have hshape : ((if false = true then [] else [44]) ++ [91] ++ sj ++ [93] ++ r') ++ 93 :: rest =
+        44 :: 91 :: (sj ++ 93 :: (r' ++ 93 :: rest)) := by simp
+    rw [hshape]
+    have hbt := burnTag_strs t (hu t (by simp)) sj (r' ++ 93 :: rest) hsj
+    have hws := eatWs_body ts r' rest hr'
+    have ih' := ih (fun t' ht' => hu t' (by simp [ht'])) r' hr' (n + 1) f (by simp at hf; omega)
+    simp [countTagsLoop, eatWs, isWs, verifyChar, hbt, hws, ih']
+    omega
+
+theorem countTags_body (ts : TagsRec) (hu : TagsUtf8 ts) (body rest : Bytes)
+    (hb : tagsJsonBody ts true = .ok body) : countTags (body ++ 93 :: rest) = .ok ts.length := by
+  cases ts with
+  | nil =>
+    simp only [tagsJsonBody, Outcome.ok.injEq] at hb
+    subst hb
+    simp [countTags]
+  | cons t ts =>
+    obtain ⟨sj, r', hsj, hr', rfl⟩ := tagsJsonBody_cons_inv t ts true body hb
+    have hshape : ((if true = true then [] else [44]) ++ [91] ++ sj ++ [93] ++ r') ++ 93 :: rest =
+        91 :: (sj ++ 93 :: (r' ++ 93 :: rest)) := by simp
+    rw [hshape]
+    have hbt := burnTag_strs t (hu t (by simp)) sj (r' ++ 93 :: rest) hsj
+    have hws := eatWs_body ts r' rest hr'
+    have hlen := tagsJsonBody_length ts r' hr'
+    simp [countTags, hbt, hws]
+    rw [countTagsLoop_body ts (fun t' ht' => hu t' (by simp [ht'])) r' rest hr' 1 _ (by omega)]
+    congr 1; omega
+
+/-- the tag loop of `read_tags_array` over the text `as_json` wrote returns the tags themselves -/
+theorem readTagsLoop_body (ts : TagsRec) (t : List Bytes) (hu : TagsUtf8 (t :: ts)) (sj r' rest : Bytes)
+    (hsj : strsJson t true = .ok sj) (hr : tagsJsonBody ts false = .ok r') (k n : Nat)
+    (hk : k + 1 + ts.length = n) (outpos cap : Nat) (hcap : outpos + tagsBodySize (t :: ts) ≤ cap)
+    (h16 : outpos + tagsBodySize (t :: ts) ≤ 65535) (fuel : Nat) (hf : ts.length + 1 ≤ fuel) :
+    ∃ offs, readTagsLoop fuel (sj ++ 93 :: (r' ++ 93 :: rest)) k n outpos cap = .ok (rest, offs, t :: ts) := by
+  induction ts generalizing t sj r' k outpos fuel with
+  | nil =>
+    obtain ⟨f, rfl⟩ : ∃ f, fuel = f + 1 := ⟨fuel - 1, by omega⟩
+    simp only [tagsJsonBody, Outcome.ok.injEq] at hr
+    subst hr
+    simp only [tagsBodySize] at hcap h16
+    have hrt := readTag_strs t (hu t (by simp)) sj (([] : Bytes) ++ 93 :: rest) hsj outpos cap (by omega)
+    refine ⟨[outpos], ?_⟩
+    unfold readTagsLoop
+    rw [if_neg (by omega), hrt]
+    simp at hk
+    simp [eatWs, isWs]
+    omega
+  | cons t2 ts2 ih =>
+    obtain ⟨f, rfl⟩ : ∃ f, fuel = f + 1 := ⟨fuel - 1, by omega⟩
+    obtain ⟨sj2, r2, hsj2, hr2, rfl⟩ := tagsJsonBody_cons_inv t2 ts2 false r' hr
+    have hshape : ((if false = true then [] else [44]) ++ [91] ++ sj2 ++ [93] ++ r2) ++ 93 :: rest =
+        44 :: 91 :: (sj2 ++ 93 :: (r2 ++ 93 :: rest)) := by simp
+    rw [hshape]
+    simp only [tagsBodySize] at hcap h16
+    have hrt := readTag_strs t (hu t (by simp)) sj (44 :: 91 :: (sj2 ++ 93 :: (r2 ++ 93 :: rest))) hsj outpos cap (by omega)
+    have hws := eatWs_strs t2 sj2 (r2 ++ 93 :: rest) hsj2
+    obtain ⟨offs, ih'⟩ := ih t2 (fun t' ht' => hu t' (by simp at ht' ⊢; right; exact ht')) sj2 r2 hsj2 hr2 (k + 1)
+      (by simp at hk ⊢; omega) (outpos + tagSize t) (by simp only [tagsBodySize]; omega)
+      (by simp only [tagsBodySize]; omega) f (by simp at hf; omega)
+    refine ⟨outpos :: offs, ?_⟩
+    unfold readTagsLoop
+    rw [if_neg (by omega), hrt]
+    have hk2 : ¬ k + 1 ≥ n := by simp at hk; omega
+    simp [eatWs, isWs, verifyChar, hk2, hws, ih']
+
+theorem tagsBodySize_le (ts : TagsRec) : 4 + 2 * ts.length + tagsBodySize ts = tagsSize ts := rfl
+
+/-- **the tags array `as_json` writes reads back as the tag section `from_parts` writes** -/
+theorem readTagsArray_tagsJson (ts : TagsRec) (hu : TagsUtf8 ts) (tj rest : Bytes)
+    (htj : tagsJson ts = .ok tj) (cap : Nat) (hfit : tagsSize ts ≤ 65535) (hcap : tagsSize ts ≤ cap) :
+    readTagsArray (tj ++ rest) cap = .ok (rest, encodeTags ts) := by
+  unfold tagsJson at htj
+  split at htj
+  · rename_i body hbody
+    simp only [Outcome.ok.injEq] at htj
+    subst htj
+    have hsz := tagsBodySize_le ts
+    have hshape : ([91] ++ body ++ [93]) ++ rest = 91 :: (body ++ 93 :: rest) := by simp
+    rw [hshape]
+    have hcount := countTags_body ts hu body rest hbody
+    cases ts with
+    | nil =>
+      simp only [tagsJsonBody, Outcome.ok.injEq] at hbody
+      subst hbody
+      simp only [List.nil_append] at hcount ⊢
+      have hcap4 : ¬ cap < 4 := by simp [tagsSize, tagsBodySize] at hcap; omega
+      simp [readTagsArray, verifyChar, eatWs, isWs, hcap4, hcount, burnFuel, burnArray, eatWsC,
+        encodeTags, tagsSize, tagsBodySize, encOffsets, encTagsBody]
+    | cons t ts' =>
+      obtain ⟨sj, r', hsj, hr', rfl⟩ := tagsJsonBody_cons_inv t ts' true body hbody
+      have hshape2 : ((if true = true then [] else [44]) ++ [91] ++ sj ++ [93] ++ r') ++ 93 :: rest =
+          91 :: (sj ++ 93 :: (r' ++ 93 :: rest)) := by simp
+      rw [hshape2] at hcount ⊢
+      have hlen := tagsJsonBody_length ts' r' hr'
+      have hws := eatWs_strs t sj (r' ++ 93 :: rest) hsj
+      simp only [List.length_cons] at hsz hcount
+      obtain ⟨offs, hloop⟩ := readTagsLoop_body ts' t hu sj r' rest hsj hr' 0 (ts'.length + 1) (by omega)
+        (4 + (ts'.length + 1) * 2) cap (by omega) (by omega)
+        ((sj ++ 93 :: (r' ++ 93 :: rest)).length + 1) (by simp; omega)
+      have hspec := (readTagsLoop_spec _ _ _ _ _ _ _ _ _ hloop (by omega)).2
+      have hcap4 : ¬ cap < 4 := by omega
+      have hn16 : ¬ ts'.length + 1 > 65535 := by omega
+      have hcapo : ¬ cap < 4 + (ts'.length + 1) * 2 := by omega
+      have htot : ¬ 4 + (ts'.length + 1) * 2 + tagsBodySize (t :: ts') > 65535 := by omega
+      unfold readTagsArray
+      simp only [verifyChar, if_true]
+      try dsimp only
+      rw [show eatWs (91 :: (sj ++ 93 :: (r' ++ 93 :: rest))) = 91 :: (sj ++ 93 :: (r' ++ 93 :: rest)) from by simp [eatWs, isWs]]
+      rw [if_neg hcap4, hcount]
+      try dsimp only
+      rw [if_neg hn16, if_neg (by omega)]
+      simp only [verifyChar, if_true]
+      try dsimp only
+      rw [if_neg hcapo, hws, hloop]
+      try dsimp only
+      rw [if_neg htot, hspec]
+      unfold encodeTags
+      simp only [List.length_cons]
+      rw [← hsz]
+      have e1 : 4 + (ts'.length + 1) * 2 = 4 + 2 * (ts'.length + 1) := by omega
+      rw [e1]
+  · cases htj
+  · cases htj
+
+/-! ### the event object -/
+
+theorem decDigits_head (f n : Nat) (hf : n < f) :
+    ∃ d ds, decDigits f n = d :: ds ∧ 48 ≤ d ∧ d ≤ 57 := by
+  induction f generalizing n with
+  | zero => omega
+  | succ f ih =>
+    unfold decDigits
+    split
+    · exact ⟨48 + n, [], rfl, by omega, by omega⟩
+    · obtain ⟨d, ds, h, h1, h2⟩ := ih (n / 10) (by omega)
+      exact ⟨d, ds ++ [48 + n % 10], by rw [h]; rfl, h1, h2⟩
+
+theorem eatWs_decOf (n : Nat) (r : Bytes) : eatWs (decOf n ++ r) = decOf n ++ r := by
+  obtain ⟨d, ds, h, h1, h2⟩ := decDigits_head (n + 1) n (by omega)
+  unfold decOf
+  rw [h]
+  have : isWs d = false := by unfold isWs; simp; omega
+  simp [eatWs, this]
+
+theorem evLoop_more (f : Nat) (st st' : EvSt) (inp r : Bytes) (cap : Nat)
+    (h : evMember st (eatWs inp) cap = .ok (st', 44 :: r)) :
+    evLoop (f + 1) st inp cap = evLoop f st' r cap := by
+  simp [evLoop, h, nextObjectField, eatWs, isWs]
+
+theorem evLoop_last (f : Nat) (st st' : EvSt) (inp r : Bytes) (cap : Nat)
+    (h : evMember st (eatWs inp) cap = .ok (st', 125 :: r)) :
+    evLoop (f + 1) st inp cap = .ok (st', r) := by
+  simp [evLoop, h, nextObjectField, eatWs, isWs]
+
+theorem noLeadingDigit_44 (r : Bytes) : NoLeadingDigit (44 :: r) := by
+  intro b r' h; simp only [List.cons.injEq] at h; rw [← h.1]; decide
+
+theorem readContent_escape (c ec rest : Bytes) (cap a : Nat) (hu : IsUtf8 c) (he : jsonEscape c = .ok ec)
+    (hcap : a + 4 + c.length ≤ cap) (h32 : a + 4 + c.length ≤ 4294967295) :
+    readContent (34 :: (ec ++ 34 :: rest)) cap a = .ok (rest, c) := by
+  unfold readContent
+  simp only [verifyChar, if_true]
+  rw [if_neg (by omega), unescape_escape c ec rest _ hu he (by omega)]
+  dsimp only
+  rw [if_neg (by unfold U32MAX; omega), drop_len_succ]
+
+/-- **`Event::from_json ∘ Event::as_json`**: for every event whose fields fit the format and whose
+strings are UTF-8, the text `as_json` writes parses back — into any buffer that is large enough,
+whatever it held before, with anything following the text — to exactly the bytes `from_parts`
+writes for that event, consuming exactly the text -/
+theorem parseEvent_eventJson (e : EventRec) (hs : EventSized e)
+    (hbid : ∀ b ∈ e.id, b < 256) (hbpk : ∀ b ∈ e.pubkey, b < 256) (hbsig : ∀ b ∈ e.sig, b < 256)
+    (hut : TagsUtf8 e.tags) (huc : IsUtf8 e.content) (txt : Bytes) (ht : eventJson e = .ok txt)
+    (rest buf : Bytes) (hbuf : (encodeEvent e).length ≤ buf.length) :
+    parseEvent (txt ++ rest) buf =
+      .ok (txt.length, (encodeEvent e).length, encodeEvent e ++ buf.drop (encodeEvent e).length) := by
+  obtain ⟨s1, s2, s3, s4, s5, s6, s7⟩ := hs
+  have hlen : (encodeEvent e).length = eventSize (tagsSize e.tags) e.content.length := by
+    unfold encodeEvent
+    rw [encodeEventWith_length _ _ _ _ _ _ _ s1 s2 s3, encodeTags_length]
+  rw [hlen] at hbuf ⊢
+  unfold eventSize at hbuf s7
+  have htsz : 4 ≤ tagsSize e.tags := by unfold tagsSize; omega
+  unfold eventJson at ht
+  split at ht
+  · rename_i tj htj
+    split at ht
+    · rename_i ec hec
+      simp only [Outcome.ok.injEq] at ht
+      subst ht
+      have hid := readHexField_hexOf 32 e.id
+      have hhid := hexOf_length e.id
+      have hhpk := hexOf_length e.pubkey
+      have hhsig := hexOf_length e.sig
+      -- the seven members, one by one
+      have m1 : ∀ (st : EvSt) (r : Bytes), st.id = none →
+          evMember st (34 :: 105 :: 100 :: 34 :: 58 :: 34 :: (hexOf e.id ++ 34 :: r)) buf.length =
+            .ok ({ st with id := some e.id }, r) := by
+        intro st r h0
+        simp [evMember, verifyChar, startsWith, kId, h0, eatColon, eatWs, isWs,
+          readHexField_hexOf 32 e.id r s1 hbid]
+      have m2 : ∀ (st : EvSt) (r : Bytes), st.pk = none →
+          evMember st (34 :: 112 :: 117 :: 98 :: 107 :: 101 :: 121 :: 34 :: 58 :: 34 :: (hexOf e.pubkey ++ 34 :: r)) buf.length =
+            .ok ({ st with pk := some e.pubkey }, r) := by
+        intro st r h0
+        simp [evMember, verifyChar, startsWith, kId, kSig, kKind, kTags, kPubkey, h0, eatColon, eatWs, isWs,
+          readHexField_hexOf 32 e.pubkey r s2 hbpk]
+      have m3 : ∀ (st : EvSt) (r : Bytes), st.kind = none →
+          evMember st (34 :: 107 :: 105 :: 110 :: 100 :: 34 :: 58 :: (decOf e.kind ++ 44 :: r)) buf.length =
+            .ok ({ st with kind := some e.kind }, 44 :: r) := by
+        intro st r h0
+        have hw := eatWs_decOf e.kind (44 :: r)
+        simp [evMember, verifyChar, startsWith, kId, kSig, kKind, h0, eatColon, eatWs, isWs, hw,
+          readKind_decOf e.kind (44 :: r) s4 (noLeadingDigit_44 r)]
+      have m4 : ∀ (st : EvSt) (r : Bytes), st.t = none →
+          evMember st (34 :: 99 :: 114 :: 101 :: 97 :: 116 :: 101 :: 100 :: 95 :: 97 :: 116 :: 34 :: 58 :: (decOf e.createdAt ++ 44 :: r)) buf.length =
+            .ok ({ st with t := some e.createdAt }, 44 :: r) := by
+        intro st r h0
+        have hw := eatWs_decOf e.createdAt (44 :: r)
+        simp [evMember, verifyChar, startsWith, kId, kSig, kKind, kTags, kPubkey, kContent, kCreatedAt, h0, eatColon, eatWs, isWs, hw,
+          readU64_decOf e.createdAt (44 :: r) s5 (noLeadingDigit_44 r)]
+      have hw5 : ∀ r : Bytes, eatWs (tj ++ r) = tj ++ r := by
+        intro r
+        unfold tagsJson at htj
+        split at htj
+        · simp only [Outcome.ok.injEq] at htj; subst htj; simp [eatWs, isWs]
+        · cases htj
+        · cases htj
+      have m5 : ∀ (st : EvSt) (r : Bytes), st.tags = none → st.contentStart = none →
+          evMember st (34 :: 116 :: 97 :: 103 :: 115 :: 34 :: 58 :: (tj ++ r)) buf.length =
+            .ok ({ st with tags := some (encodeTags e.tags) }, r) := by
+        intro st r h0 h1
+        simp [evMember, verifyChar, startsWith, kId, kSig, kKind, kTags, h0, h1, eatColon, eatWs, isWs, hw5,
+          readTagsArray_tagsJson e.tags hut tj r htj (buf.length - 144) s6 (by omega)]
+      have m6 : ∀ (st : EvSt) (r : Bytes), st.content = none → st.tags = some (encodeTags e.tags) →
+          evMember st (34 :: 99 :: 111 :: 110 :: 116 :: 101 :: 110 :: 116 :: 34 :: 58 :: 34 :: (ec ++ 34 :: r)) buf.length =
+            .ok ({ st with content := some e.content }, r) := by
+        intro st r h0 h1
+        have hrc := readContent_escape e.content ec r buf.length (144 + (encodeTags e.tags).length) huc hec
+          (by rw [encodeTags_length]; omega) (by rw [encodeTags_length]; omega)
+        simp [evMember, verifyChar, startsWith, kId, kSig, kKind, kTags, kPubkey, kContent, h0, h1, eatColon, eatWs, isWs, hrc]
+      have m7 : ∀ (st : EvSt) (r : Bytes), st.sig = none →
+          evMember st (34 :: 115 :: 105 :: 103 :: 34 :: 58 :: 34 :: (hexOf e.sig ++ 34 :: r)) buf.length =
+            .ok ({ st with sig := some e.sig }, r) := by
+        intro st r h0
+        simp [evMember, verifyChar, startsWith, kId, kSig, h0, eatColon, eatWs, isWs,
+          readHexField_hexOf 64 e.sig r s3 hbsig]
+      -- the text, as the suffixes the member loop sees
+      obtain ⟨T7, hT7⟩ : ∃ x, x = 34 :: 115 :: 105 :: 103 :: 34 :: 58 :: 34 :: (hexOf e.sig ++ 34 :: 125 :: rest) := ⟨_, rfl⟩
+      obtain ⟨T6, hT6⟩ : ∃ x, x = 34 :: 99 :: 111 :: 110 :: 116 :: 101 :: 110 :: 116 :: 34 :: 58 :: 34 :: (ec ++ 34 :: 44 :: T7) := ⟨_, rfl⟩
+      obtain ⟨T5, hT5⟩ : ∃ x, x = 34 :: 116 :: 97 :: 103 :: 115 :: 34 :: 58 :: (tj ++ 44 :: T6) := ⟨_, rfl⟩
+      obtain ⟨T4, hT4⟩ : ∃ x, x = 34 :: 99 :: 114 :: 101 :: 97 :: 116 :: 101 :: 100 :: 95 :: 97 :: 116 :: 34 :: 58 :: (decOf e.createdAt ++ 44 :: T5) := ⟨_, rfl⟩
+      obtain ⟨T3, hT3⟩ : ∃ x, x = 34 :: 107 :: 105 :: 110 :: 100 :: 34 :: 58 :: (decOf e.kind ++ 44 :: T4) := ⟨_, rfl⟩
+      obtain ⟨T2, hT2⟩ : ∃ x, x = 34 :: 112 :: 117 :: 98 :: 107 :: 101 :: 121 :: 34 :: 58 :: 34 :: (hexOf e.pubkey ++ 34 :: 44 :: T3) := ⟨_, rfl⟩
+      obtain ⟨T1, hT1⟩ : ∃ x, x = 34 :: 105 :: 100 :: 34 :: 58 :: 34 :: (hexOf e.id ++ 34 :: 44 :: T2) := ⟨_, rfl⟩
+      have hshape : ([123, 34, 105, 100, 34, 58, 34] ++ hexOf e.id ++ [34, 44, 34, 112, 117, 98, 107, 101, 121, 34, 58, 34] ++ hexOf e.pubkey ++
+          [34, 44, 34, 107, 105, 110, 100, 34, 58] ++ decOf e.kind ++ [44, 34, 99, 114, 101, 97, 116, 101, 100, 95, 97, 116, 34, 58] ++ decOf e.createdAt ++
+          [44, 34, 116, 97, 103, 115, 34, 58] ++ tj ++ [44, 34, 99, 111, 110, 116, 101, 110, 116, 34, 58, 34] ++ ec ++
+          [34, 44, 34, 115, 105, 103, 34, 58, 34] ++ hexOf e.sig ++ [34, 125]) ++ rest = 123 :: T1 := by
+        subst hT1 hT2 hT3 hT4 hT5 hT6 hT7
+        simp
+      have hlen1 : T1.length = 6 + 64 + 2 + T2.length := by
+        rw [hT1]; simp only [List.length_cons, List.length_append, hhid, s1]; omega
+      have htxtlen : ([123, 34, 105, 100, 34, 58, 34] ++ hexOf e.id ++ [34, 44, 34, 112, 117, 98, 107, 101, 121, 34, 58, 34] ++ hexOf e.pubkey ++
+          [34, 44, 34, 107, 105, 110, 100, 34, 58] ++ decOf e.kind ++ [44, 34, 99, 114, 101, 97, 116, 101, 100, 95, 97, 116, 34, 58] ++ decOf e.createdAt ++
+          [44, 34, 116, 97, 103, 115, 34, 58] ++ tj ++ [44, 34, 99, 111, 110, 116, 101, 110, 116, 34, 58, 34] ++ ec ++
+          [34, 44, 34, 115, 105, 103, 34, 58, 34] ++ hexOf e.sig ++ [34, 125]).length + rest.length = (123 :: T1).length := by
+        have := congrArg List.length hshape
+        rw [List.length_append] at this
+        exact this
+      have hlen2 : T2.length = 10 + 64 + 2 + T3.length := by
+        rw [hT2]; simp only [List.length_cons, List.length_append, hhpk, s2]; omega
+      have hlen7 : T7.length ≥ 7 + 128 := by
+        rw [hT7]; simp only [List.length_cons, List.length_append, hhsig, s3]; omega
+      have hlen3 : T3.length ≥ T7.length := by
+        rw [hT3, hT4, hT5, hT6]; simp only [List.length_cons, List.length_append]; omega
+      rw [hshape]
+      obtain ⟨f, hf⟩ : ∃ f, T1.length + 1 = f + 7 := ⟨T1.length + 1 - 7, by omega⟩
+      have ws : ∀ x : Bytes, eatWs (34 :: x) = 34 :: x := fun x => by simp [eatWs, isWs]
+      have loop : evLoop (T1.length + 1) {} T1 buf.length =
+          .ok ({ id := some e.id, pk := some e.pubkey, sig := some e.sig, kind := some e.kind, t := some e.createdAt,
+                 tags := some (encodeTags e.tags), content := some e.content, contentStart := none }, rest) := by
+        rw [hf]
+        rw [evLoop_more (f + 5 + 1) {} _ T1 T2 buf.length (by rw [hT1, ws]; exact m1 {} _ rfl)]
+        rw [evLoop_more (f + 4 + 1) _ _ T2 T3 buf.length (by rw [hT2, ws]; exact m2 _ _ rfl)]
+        rw [evLoop_more (f + 3 + 1) _ _ T3 T4 buf.length (by rw [hT3, ws]; exact m3 _ _ rfl)]
+        rw [evLoop_more (f + 2 + 1) _ _ T4 T5 buf.length (by rw [hT4, ws]; exact m4 _ _ rfl)]
+        rw [evLoop_more (f + 1 + 1) _ _ T5 T6 buf.length (by rw [hT5, ws]; exact m5 _ _ rfl rfl)]
+        rw [evLoop_more (f + 1) _ _ T6 T7 buf.length (by rw [hT6, ws]; exact m6 _ _ rfl rfl)]
+        rw [evLoop_last f _ _ T7 rest buf.length (by rw [hT7, ws]; exact m7 _ _ rfl)]
+      unfold parseEvent
+      rw [if_neg (by simp only [List.length_cons]; omega), if_neg (by omega)]
+      rw [show eatWs (123 :: T1) = 123 :: T1 from by simp [eatWs, isWs]]
+      simp only [verifyChar, if_true]
+      rw [loop]
+      dsimp only
+      have henc : encodeEventWith e.id e.pubkey e.sig e.kind e.createdAt (encodeTags e.tags) e.content = encodeEvent e := rfl
+      rw [henc, hlen]
+      simp only [eventSize, List.length_cons] at *
+      congr 2
+      omega
+    · cases ht
+    · cases ht
+  · cases ht
+  · cases ht
+
+/-! ### `as_json` succeeds on UTF-8 events -/
+
+theorem strsJson_ok (ss : List Bytes) (hu : ∀ x ∈ ss, IsUtf8 x) (first : Bool) :
+    ∃ txt, strsJson ss first = .ok txt := by
+  induction ss generalizing first with
+  | nil => exact ⟨[], rfl⟩
+  | cons s ss ih =>
+    obtain ⟨e, he⟩ := IsUtf8_escape s (hu s (by simp))
+    obtain ⟨r, hr⟩ := ih (fun x hx => hu x (by simp [hx])) false
+    simp only [strsJson, he, hr]
+    exact ⟨_, rfl⟩
+
+theorem tagsJsonBody_ok (ts : TagsRec) (hu : TagsUtf8 ts) (first : Bool) :
+    ∃ txt, tagsJsonBody ts first = .ok txt := by
+  induction ts generalizing first with
+  | nil => exact ⟨[], rfl⟩
+  | cons t ts ih =>
+    obtain ⟨sj, hsj⟩ := strsJson_ok t (hu t (by simp)) true
+    obtain ⟨r, hr⟩ := ih (fun t' ht' => hu t' (by simp [ht'])) false
+    simp only [tagsJsonBody, hsj, hr]
+    exact ⟨_, rfl⟩
+
+theorem tagsJson_ok (ts : TagsRec) (hu : TagsUtf8 ts) : ∃ txt, tagsJson ts = .ok txt := by
+  obtain ⟨b, hb⟩ := tagsJsonBody_ok ts hu true
+  simp only [tagsJson, hb]
+  exact ⟨_, rfl⟩
+
+theorem eventJson_ok (e : EventRec) (hut : TagsUtf8 e.tags) (huc : IsUtf8 e.content) :
+    ∃ txt, eventJson e = .ok txt := by
+  obtain ⟨tj, htj⟩ := tagsJson_ok e.tags hut
+  obtain ⟨ec, hec⟩ := IsUtf8_escape e.content huc
+  simp only [eventJson, htj, hec]
+  exact ⟨_, rfl⟩
+
 end Pocket
